@@ -581,7 +581,7 @@ impl C17 {
         // string-route parser vs reference, for strict numerals inside strings of foreign frames
         for fs in &w.frames {
             if let FrameSrc::Foreign(f) = fs {
-                for frag in [&f.plain, &f.num].into_iter().chain(f.list.iter()) {
+                for frag in [&f.plain, &f.num].into_iter().chain(f.list.iter()).chain(f.optplain.iter()) {
                     if let Some(inner) = frag.strip_prefix('"').and_then(|x| x.strip_suffix('"')) {
                         if string_reference_agrees(inner) == Some(false) {
                             fails.push(wire_fail("J2-digit-for-digit", w, format!("numeric string {:?}: the crate's parser disagrees with the reference reading", clip(inner, 60))).fact("field", "string"));
